@@ -1,3 +1,487 @@
 package main
 
-func t2() {}
+// T2: reset lists.  For every struct named by C09 the translator emits DATA only:
+//   - the flattened list of leaf fields (sub-objects whose type is one of the known structs are
+//     expanded, so `Request.Header.contentLength` is a leaf of RequestContext), each with its
+//     origin `Struct.field`;
+//   - every Reset-like method reachable from the listed entry points, instantiated per prefix,
+//     as a statement list of coq/Model/ResetLang.v:
+//         recv.path = zero-ish const     -> SSet leaf RZero
+//         recv.path = recv.path[:0]      -> SSet leaf REmpty
+//         recv.path = anything else      -> SSet leaf ROther
+//         recv.sub.M() / recv.M()        -> SCall <instantiated method>     (known struct)
+//         recv.leaf.M()                  -> SSub leaf (M == "Reset")       (external object)
+//         if recv.leaf ==/!= nil {..}    -> SIf (CIsNil/CNotNil leaf) ..   other conditions COpaque
+//         for i := range recv.leaf { [if recv.leaf[i] != nil {] ...; recv.leaf[i] = nil [}] }
+//                                        -> SSet leaf REmpty               (range-clear idiom)
+//         return                         -> SReturn
+//         statements that cannot write through the receiver -> SEffect
+//         anything else                  -> SOpaque (the analysis then yields no result and the
+//                                           obligation fails closed)
+// The path analysis and its soundness proof are Gallina (Model/ResetLang.v, Proofs/ResetProofs.v).
+
+import (
+	"fmt"
+	"go/ast"
+	"go/parser"
+	"go/token"
+	"os"
+	"path/filepath"
+	"strings"
+)
+
+type t2field struct {
+	name string
+	typ  string // type expression source
+}
+type t2struct struct {
+	name    string
+	fields  []t2field
+	methods map[string]*ast.FuncDecl
+}
+
+var t2structs = map[string]*t2struct{}
+
+func t2load(dir string) {
+	pkgs, err := parser.ParseDir(t3fset, filepath.Join(repo, dir), func(fi os.FileInfo) bool {
+		return !strings.HasSuffix(fi.Name(), "_test.go") && !strings.HasPrefix(fi.Name(), "verif_")
+	}, 0)
+	if err != nil {
+		die("t2: %v", err)
+	}
+	for _, p := range pkgs {
+		for _, f := range p.Files {
+			for _, d := range f.Decls {
+				switch d := d.(type) {
+				case *ast.GenDecl:
+					for _, s := range d.Specs {
+						ts, ok := s.(*ast.TypeSpec)
+						if !ok {
+							continue
+						}
+						st, ok := ts.Type.(*ast.StructType)
+						if !ok {
+							continue
+						}
+						info := t2get(ts.Name.Name)
+						for _, fl := range st.Fields.List {
+							if len(fl.Names) == 0 {
+								info.fields = append(info.fields, t2field{"embedded_" + strings.NewReplacer(".", "_", "*", "").Replace(t3src(fl.Type)), t3src(fl.Type)})
+							}
+							for _, n := range fl.Names {
+								info.fields = append(info.fields, t2field{n.Name, t3src(fl.Type)})
+							}
+						}
+					}
+				case *ast.FuncDecl:
+					if d.Recv != nil && len(d.Recv.List) == 1 && d.Body != nil {
+						t := d.Recv.List[0].Type
+						if se, ok := t.(*ast.StarExpr); ok {
+							t = se.X
+						}
+						if id, ok := t.(*ast.Ident); ok {
+							t2get(id.Name).methods[d.Name.Name] = d
+						}
+					}
+				}
+			}
+		}
+	}
+}
+
+func t2get(name string) *t2struct {
+	if s, ok := t2structs[name]; ok {
+		return s
+	}
+	s := &t2struct{name: name, methods: map[string]*ast.FuncDecl{}}
+	t2structs[name] = s
+	return s
+}
+
+// the structs whose fields are expanded when they occur as sub-objects
+var t2known = map[string]bool{"ResponseHeader": true, "RequestHeader": true, "Request": true, "Response": true, "URI": true,
+	"Cookie": true, "Args": true, "Trailer": true, "RequestContext": true, "bodyStream": true, "httpStats": true}
+
+func t2subStruct(typ string) string {
+	t := strings.TrimPrefix(typ, "*")
+	if i := strings.LastIndex(t, "."); i >= 0 {
+		t = t[i+1:]
+	}
+	if t2known[t] {
+		if s, ok := t2structs[t]; ok && len(s.fields) > 0 {
+			return t
+		}
+	}
+	return ""
+}
+
+type t2leaf struct{ path, origin string }
+
+func t2flatten(st string, prefix string, out *[]t2leaf) {
+	for _, f := range t2structs[st].fields {
+		if sub := t2subStruct(f.typ); sub != "" {
+			t2flatten(sub, prefix+f.name+".", out)
+		} else {
+			*out = append(*out, t2leaf{prefix + f.name, st + "." + f.name})
+		}
+	}
+}
+
+// ---- per top-level struct translation context ----
+type t2ctx struct {
+	top     string
+	leaves  []t2leaf
+	leafIdx map[string]int
+	methods []string          // rendered bodies, index = method id
+	names   []string          // "prefix|Struct.method"
+	ids     map[string]int
+}
+
+// resolve an expression rooted at the receiver to (struct-valued?, struct name, path)
+func (c *t2ctx) resolve(e ast.Expr, recv, st, prefix string) (isStruct bool, sname, path string, ok bool) {
+	switch e := e.(type) {
+	case *ast.Ident:
+		if e.Name == recv {
+			return true, st, strings.TrimSuffix(prefix, "."), true
+		}
+	case *ast.ParenExpr:
+		return c.resolve(e.X, recv, st, prefix)
+	case *ast.UnaryExpr:
+		if e.Op == token.AND {
+			return c.resolve(e.X, recv, st, prefix)
+		}
+	case *ast.StarExpr:
+		return c.resolve(e.X, recv, st, prefix)
+	case *ast.SelectorExpr:
+		isS, sn, p, ok := c.resolve(e.X, recv, st, prefix)
+		if !ok || !isS {
+			return false, "", "", false
+		}
+		return c.field(sn, p, e.Sel.Name)
+	case *ast.CallExpr: // accessor h.Trailer()
+		if len(e.Args) == 0 {
+			if se, ok := e.Fun.(*ast.SelectorExpr); ok {
+				isS, sn, p, ok := c.resolve(se.X, recv, st, prefix)
+				if ok && isS {
+					name := strings.ToLower(se.Sel.Name[:1]) + se.Sel.Name[1:]
+					return c.field(sn, p, name)
+				}
+			}
+		}
+	}
+	return false, "", "", false
+}
+
+func (c *t2ctx) field(sn, p, name string) (bool, string, string, bool) {
+	for _, f := range t2structs[sn].fields {
+		if f.name == name {
+			np := name
+			if p != "" {
+				np = p + "." + name
+			}
+			if sub := t2subStruct(f.typ); sub != "" {
+				return true, sub, np, true
+			}
+			return false, "", np, true
+		}
+	}
+	return false, "", "", false
+}
+
+func mentions(n ast.Node, names map[string]bool) bool {
+	found := false
+	ast.Inspect(n, func(x ast.Node) bool {
+		if id, ok := x.(*ast.Ident); ok && names[id.Name] {
+			found = true
+		}
+		return !found
+	})
+	return found
+}
+
+func (c *t2ctx) method(st, m, prefix string) int {
+	key := prefix + "|" + st + "." + m
+	if id, ok := c.ids[key]; ok {
+		return id
+	}
+	id := len(c.methods)
+	c.ids[key] = id
+	c.methods = append(c.methods, "")
+	c.names = append(c.names, key)
+	d := t2structs[st].methods[m]
+	body := "[SOpaque " + coqBytes("method not found: "+key) + "]"
+	if d != nil && len(d.Recv.List[0].Names) == 1 && (d.Type.Params == nil || len(d.Type.Params.List) == 0) {
+		recv := d.Recv.List[0].Names[0].Name
+		tainted := map[string]bool{recv: true}
+		body = c.block(d.Body.List, recv, st, prefix, tainted)
+	} else if d != nil {
+		body = "[SOpaque " + coqBytes("method with parameters: "+key) + "]"
+	}
+	c.methods[id] = body
+	return id
+}
+
+func (c *t2ctx) block(list []ast.Stmt, recv, st, prefix string, tainted map[string]bool) string {
+	var out []string
+	for _, s := range list {
+		out = append(out, c.stmt(s, recv, st, prefix, tainted))
+	}
+	return "[" + strings.Join(out, "; ") + "]"
+}
+
+func zeroish(rhs ast.Expr, leaf string) bool {
+	s := t3src(rhs)
+	switch s {
+	case "nil", "0", `""`, "false", "zeroTime", "CookieSameSiteDisabled":
+		return true
+	case "-1":
+		return strings.HasSuffix(leaf, "index")
+	}
+	return false
+}
+
+func (c *t2ctx) cond(e ast.Expr, recv, st, prefix string) string {
+	if be, ok := e.(*ast.BinaryExpr); ok && (be.Op == token.EQL || be.Op == token.NEQ) && t3src(be.Y) == "nil" {
+		if isS, _, p, ok := c.resolve(be.X, recv, st, prefix); ok && !isS {
+			if idx, ok := c.leafIdx[p]; ok {
+				if be.Op == token.EQL {
+					return fmt.Sprintf("CIsNil %d", idx)
+				}
+				return fmt.Sprintf("CNotNil %d", idx)
+			}
+		}
+	}
+	return "COpaque"
+}
+
+func (c *t2ctx) stmt(s ast.Stmt, recv, st, prefix string, tainted map[string]bool) string {
+	opaque := func() string { return "SOpaque " + coqBytes(t3src(s)) }
+	switch s := s.(type) {
+	case *ast.AssignStmt:
+		if len(s.Lhs) == 1 && len(s.Rhs) == 1 && s.Tok == token.ASSIGN {
+			if isS, _, p, ok := c.resolve(s.Lhs[0], recv, st, prefix); ok && isS && p != strings.TrimSuffix(prefix, ".") && t3src(s.Rhs[0]) == "nil" {
+				// a pointer to a known struct is dropped: every leaf below it is gone
+				var sets []string
+				for i, l := range c.leaves {
+					if strings.HasPrefix(l.path, p+".") {
+						sets = append(sets, fmt.Sprintf("SSet %d RZero", i))
+					}
+				}
+				if len(sets) > 0 {
+					return strings.Join(sets, "; ")
+				}
+			}
+			if isS, _, p, ok := c.resolve(s.Lhs[0], recv, st, prefix); ok && !isS {
+				idx, ok := c.leafIdx[p]
+				if !ok {
+					return opaque()
+				}
+				switch {
+				case zeroish(s.Rhs[0], p):
+					return fmt.Sprintf("SSet %d RZero", idx)
+				default:
+					if se, ok := s.Rhs[0].(*ast.SliceExpr); ok && se.High != nil && t3src(se.High) == "0" && (se.Low == nil || t3src(se.Low) == "0") {
+						if isS2, _, p2, ok := c.resolve(se.X, recv, st, prefix); ok && !isS2 && p2 == p {
+							return fmt.Sprintf("SSet %d REmpty", idx)
+						}
+					}
+					return fmt.Sprintf("SSet %d ROther", idx)
+				}
+			}
+		}
+		// assignment to locals: harmless unless the target aliases receiver state
+		for _, l := range s.Lhs {
+			root := l
+			for {
+				switch x := root.(type) {
+				case *ast.SelectorExpr:
+					root = x.X
+					continue
+				case *ast.IndexExpr:
+					root = x.X
+					continue
+				case *ast.StarExpr:
+					root = x.X
+					continue
+				}
+				break
+			}
+			id, ok := root.(*ast.Ident)
+			if !ok {
+				return opaque()
+			}
+			if _, isPlain := l.(*ast.Ident); !isPlain && tainted[id.Name] {
+				return opaque() // write through something derived from the receiver
+			}
+			if id.Name == recv {
+				return opaque()
+			}
+		}
+		for _, r := range s.Rhs {
+			if mentions(r, tainted) {
+				for _, l := range s.Lhs {
+					if id, ok := l.(*ast.Ident); ok {
+						tainted[id.Name] = true
+					}
+				}
+			}
+		}
+		return "SEffect"
+	case *ast.DeclStmt:
+		return "SEffect"
+	case *ast.ExprStmt:
+		ce, ok := s.X.(*ast.CallExpr)
+		if !ok {
+			return opaque()
+		}
+		if se, ok := ce.Fun.(*ast.SelectorExpr); ok {
+			if isS, sn, p, ok := c.resolve(se.X, recv, st, prefix); ok {
+				if isS {
+					if len(ce.Args) != 0 {
+						return opaque()
+					}
+					np := p
+					if np != "" {
+						np += "."
+					}
+					return fmt.Sprintf("SCall %d", c.method(sn, se.Sel.Name, np))
+				}
+				if idx, ok := c.leafIdx[p]; ok {
+					total := "false"
+					if se.Sel.Name == "Reset" && len(ce.Args) == 0 {
+						total = "true"
+					}
+					return fmt.Sprintf("SSub %d %s", idx, total)
+				}
+				return opaque()
+			}
+		}
+		// a call that is not a method of receiver state: an effect outside the struct as long as
+		// it cannot receive a pointer into it
+		for _, a := range ce.Args {
+			if ue, ok := a.(*ast.UnaryExpr); ok && ue.Op == token.AND && mentions(ue, tainted) {
+				return opaque()
+			}
+		}
+		return "SEffect"
+	case *ast.IfStmt:
+		if s.Init != nil {
+			if r := c.stmt(s.Init, recv, st, prefix, tainted); r != "SEffect" {
+				return opaque()
+			}
+		}
+		els := "[]"
+		switch e := s.Else.(type) {
+		case *ast.BlockStmt:
+			els = c.block(e.List, recv, st, prefix, tainted)
+		case *ast.IfStmt:
+			els = "[" + c.stmt(e, recv, st, prefix, tainted) + "]"
+		}
+		return "SIf (" + c.cond(s.Cond, recv, st, prefix) + ") " + c.block(s.Body.List, recv, st, prefix, tainted) + " " + els
+	case *ast.ReturnStmt:
+		for _, r := range s.Results {
+			switch x := r.(type) {
+			case *ast.Ident:
+				_ = x
+			case *ast.BasicLit:
+			default:
+				return opaque()
+			}
+		}
+		return "SReturn"
+	case *ast.RangeStmt:
+		// range-clear idiom over a leaf field
+		isS, _, p, ok := c.resolve(s.X, recv, st, prefix)
+		key, kok := s.Key.(*ast.Ident)
+		if ok && !isS && kok && s.Value == nil {
+			if idx, ok := c.leafIdx[p]; ok {
+				body := s.Body.List
+				if len(body) == 1 {
+					if is, ok := body[0].(*ast.IfStmt); ok && is.Else == nil && is.Init == nil {
+						body = is.Body.List
+					}
+				}
+				cleared := false
+				fine := true
+				for _, b := range body {
+					if as, ok := b.(*ast.AssignStmt); ok && len(as.Lhs) == 1 && len(as.Rhs) == 1 && t3src(as.Rhs[0]) == "nil" {
+						if ie, ok := as.Lhs[0].(*ast.IndexExpr); ok && t3src(ie.Index) == key.Name {
+							if _, _, p2, ok := c.resolve(ie.X, recv, st, prefix); ok && p2 == p {
+								cleared = true
+								continue
+							}
+						}
+						fine = false
+					} else if _, ok := b.(*ast.ExprStmt); !ok {
+						fine = false
+					}
+				}
+				if cleared && fine {
+					return fmt.Sprintf("SSet %d REmpty", idx)
+				}
+			}
+		}
+		return opaque()
+	}
+	return opaque()
+}
+
+func t2() {
+	for _, d := range []string{"pkg/protocol", "pkg/app", "pkg/protocol/http1/ext", "pkg/common/tracer/traceinfo"} {
+		t2load(d)
+	}
+	jobs := []struct {
+		typ     string
+		entries []string
+	}{
+		{"ResponseHeader", []string{"Reset"}},
+		{"RequestHeader", []string{"Reset"}},
+		{"Request", []string{"Reset", "ResetWithoutConn"}},
+		{"Response", []string{"Reset"}},
+		{"URI", []string{"Reset"}},
+		{"Cookie", []string{"Reset"}},
+		{"Args", []string{"Reset"}},
+		{"Trailer", []string{"Reset"}},
+		{"RequestContext", []string{"Reset", "ResetWithoutConn"}},
+		{"bodyStream", []string{"reset"}},
+		{"httpStats", []string{"Reset"}},
+	}
+	var sb strings.Builder
+	sb.WriteString("(* GENERATED by /verif/tools/gotrans (T2) from /repo — do not edit *)\n")
+	sb.WriteString("From Coq Require Import List Strings.Byte.\nRequire Import ResetLang.\nImport ListNotations.\n\n")
+	for _, j := range jobs {
+		if s, ok := t2structs[j.typ]; !ok || len(s.fields) == 0 {
+			fmt.Fprintf(&sb, "(* struct %s not found *)\nDefinition R_%s_leaves : list (list byte * list byte) := [].\nDefinition R_%s_methods : list (list stmt) := [[SOpaque %s]].\n",
+				j.typ, j.typ, j.typ, coqBytes("struct not found"))
+			for _, e := range j.entries {
+				fmt.Fprintf(&sb, "Definition R_%s_entry_%s : nat := 0.\n", j.typ, e)
+			}
+			continue
+		}
+		c := &t2ctx{top: j.typ, leafIdx: map[string]int{}, ids: map[string]int{}}
+		t2flatten(j.typ, "", &c.leaves)
+		for i, l := range c.leaves {
+			c.leafIdx[l.path] = i
+		}
+		entryIds := map[string]int{}
+		for _, e := range j.entries {
+			entryIds[e] = c.method(j.typ, e, "")
+		}
+		fmt.Fprintf(&sb, "(* ---- %s ---- *)\n", j.typ)
+		var ls []string
+		for _, l := range c.leaves {
+			ls = append(ls, fmt.Sprintf("(%s, %s)", coqBytes(l.path), coqBytes(l.origin)))
+		}
+		fmt.Fprintf(&sb, "Definition R_%s_leaves : list (list byte * list byte) := [\n  %s].\n", j.typ, strings.Join(ls, ";\n  "))
+		var ms []string
+		for i, m := range c.methods {
+			ms = append(ms, fmt.Sprintf("(* %d: %s *) %s", i, c.names[i], m))
+		}
+		fmt.Fprintf(&sb, "Definition R_%s_methods : list (list stmt) := [\n  %s].\n", j.typ, strings.Join(ms, ";\n  "))
+		for _, e := range j.entries {
+			fmt.Fprintf(&sb, "Definition R_%s_entry_%s : nat := %d.\n", j.typ, e, entryIds[e])
+		}
+		sb.WriteString("\n")
+	}
+	writeIfChanged("ResetModel.v", []byte(sb.String()))
+}
